@@ -1,4 +1,5 @@
 // families CH (4) and TK (5): see coq/Run/Adapters.v
+use crate::alloc_count::{lib, take_lib};
 use crate::common::*;
 use fixed_buffer::*;
 use std::io::{Read, Write};
@@ -32,6 +33,10 @@ fn tail_obs(out: &mut Vec<i128>, first: Option<&ScriptReader>, rw: &ScriptRW) {
     out.push(-7);
     out.push(rw.w.log.len() as i128);
     out.extend(rw.w.log.iter());
+    if std::env::var_os("HSYNC_ALLOCS").is_some() {
+        out.push(MAL);
+        out.push(take_lib() as i128);
+    }
 }
 
 enum Op {
@@ -114,7 +119,7 @@ fn chain_variant(variant: u64, s1: Vec<u8>, sc1: std::collections::VecDeque<(u64
             match op {
                 Op::Read(k) => {
                     let mut d = vec![0xDDu8; *k];
-                    let r = std::panic::catch_unwind(std::panic::AssertUnwindSafe(|| chain.read(&mut d)));
+                    let r = std::panic::catch_unwind(std::panic::AssertUnwindSafe(|| lib(|| chain.read(&mut d))));
                     match r {
                         Ok(q) => {
                             enc_io_usize(out, &q);
@@ -124,14 +129,14 @@ fn chain_variant(variant: u64, s1: Vec<u8>, sc1: std::collections::VecDeque<(u64
                     }
                 }
                 Op::Write(data) => {
-                    let r = std::panic::catch_unwind(std::panic::AssertUnwindSafe(|| chain.write(data)));
+                    let r = std::panic::catch_unwind(std::panic::AssertUnwindSafe(|| lib(|| chain.write(data))));
                     match r {
                         Ok(q) => enc_io_usize(out, &q),
                         Err(_) => out.push(PANIC),
                     }
                 }
                 Op::Flush => {
-                    let r = std::panic::catch_unwind(std::panic::AssertUnwindSafe(|| chain.flush()));
+                    let r = std::panic::catch_unwind(std::panic::AssertUnwindSafe(|| lib(|| chain.flush())));
                     match r {
                         Ok(q) => enc_unit(out, &q),
                         Err(_) => out.push(PANIC),
@@ -150,7 +155,7 @@ fn chain_variant(variant: u64, s1: Vec<u8>, sc1: std::collections::VecDeque<(u64
             out.push(MOP);
             {
                 let mut d = vec![0xDDu8; *k];
-                let r = std::panic::catch_unwind(std::panic::AssertUnwindSafe(|| chain.read(&mut d)));
+                let r = std::panic::catch_unwind(std::panic::AssertUnwindSafe(|| lib(|| chain.read(&mut d))));
                 match r {
                     Ok(q) => {
                         enc_io_usize(out, &q);
@@ -212,7 +217,7 @@ fn take_variant(variant: u64, limit: u64, s2: Vec<u8>, sc2: std::collections::Ve
             match op {
                 Op::Read(k) => {
                     let mut d = vec![0xDDu8; *k];
-                    let r = std::panic::catch_unwind(std::panic::AssertUnwindSafe(|| take.read(&mut d)));
+                    let r = std::panic::catch_unwind(std::panic::AssertUnwindSafe(|| lib(|| take.read(&mut d))));
                     match r {
                         Ok(q) => {
                             enc_io_usize(out, &q);
@@ -222,14 +227,14 @@ fn take_variant(variant: u64, limit: u64, s2: Vec<u8>, sc2: std::collections::Ve
                     }
                 }
                 Op::Write(data) => {
-                    let r = std::panic::catch_unwind(std::panic::AssertUnwindSafe(|| take.write(data)));
+                    let r = std::panic::catch_unwind(std::panic::AssertUnwindSafe(|| lib(|| take.write(data))));
                     match r {
                         Ok(q) => enc_io_usize(out, &q),
                         Err(_) => out.push(PANIC),
                     }
                 }
                 Op::Flush => {
-                    let r = std::panic::catch_unwind(std::panic::AssertUnwindSafe(|| take.flush()));
+                    let r = std::panic::catch_unwind(std::panic::AssertUnwindSafe(|| lib(|| take.flush())));
                     match r {
                         Ok(q) => enc_unit(out, &q),
                         Err(_) => out.push(PANIC),
@@ -247,7 +252,7 @@ fn take_variant(variant: u64, limit: u64, s2: Vec<u8>, sc2: std::collections::Ve
             out.push(MOP);
             {
                 let mut d = vec![0xDDu8; *k];
-                let r = std::panic::catch_unwind(std::panic::AssertUnwindSafe(|| take.read(&mut d)));
+                let r = std::panic::catch_unwind(std::panic::AssertUnwindSafe(|| lib(|| take.read(&mut d))));
                 match r {
                     Ok(q) => {
                         enc_io_usize(out, &q);
